@@ -786,7 +786,7 @@ def run(tier, replay=None):
             progs.append((s, d, t, "hand"))
         for s, d, t in DEFECTS:
             progs.append((s, d, t, "defect"))
-        n = 160 if quick else 4000
+        n = 160 if quick else 1200
         for _ in range(n):
             g = Gen17(ck.rng, ck.rng.randint(2, 7))
             s, d, t = g.program()
